@@ -62,7 +62,7 @@ Definition step (e : aedge) (cury : Z) : aedge :=
       match div_fixed16_fixed16 (e_nextx e - e_oldx e) (e_nexty e - e_oldy e) with
       | Some q =>
           (* the new segment starts at old_y, part of the way through this sample row: advance by the rest of the row *)
-          let slope := Z.shiftr q 2 in
+          let slope := Z.quot q 4 in
           let rest := dot2_to_dot16 (cury + 1) - e_oldy e in
           mk_aedge (e_x2 e) (e_y2 e) slope (e_fullx e + Z.shiftr (slope * rest) 14) (e_nextx e) (e_nexty e)
             (e_dx e) (e_ddx e) (e_dy e) (e_ddy e) (e_oldx e) (e_oldy e) (e_shift e) (e_count e) (e_wind e) (e_err e)
